@@ -31,8 +31,8 @@ Proof.
   - destruct (fin (run step fin d s)) eqn:E; auto.
 Qed.
 
-(* the loops run with binary fuel 2^63; never unfold it *)
-Local Opaque fuel_depth.
+(* the loops run with binary fuel derived from the input size; never unfold it here *)
+Local Opaque pred_fuel order_fuel.
 
 (* ================================================================================================ *)
 (* A. opcodes.py: indices and next/prev links of _make_opcode_list / _add_jump_targets *)
@@ -774,15 +774,15 @@ Lemma compute_predecessors_keys : forall nodes es pm,
 Proof.
   intros nodes es pm H. unfold compute_predecessors in H.
   set (s0 := mkP (map (fun n => (n, [n])) nodes) [] nodes [] 0) in *.
-  assert (P : map fst (p_map (run (pstep es) pfin fuel_depth s0)) = nodes).
+  assert (P : map fst (p_map (run (pstep es) pfin (pred_fuel nodes es) s0)) = nodes).
   { apply (run_inv _ (pstep es) pfin (fun s => map fst (p_map s) = nodes)).
     - intros s Hs _. unfold pstep. destruct (p_todo s) as [|[f n] rest].
       + destruct (p_starts s); auto. destruct (memN n (p_disc s)); auto.
       + destruct (assocN n (p_map s)); [|exact Hs]. destruct (assocN f (p_map s)); [|exact Hs].
         destruct (length l =? length (unionN l l0)); simpl; auto. rewrite set_assoc_keys. exact Hs.
     - simpl. rewrite map_map. simpl. apply map_id. }
-  destruct (p_err (run (pstep es) pfin fuel_depth s0)); try discriminate.
-  destruct (pfin (run (pstep es) pfin fuel_depth s0)); try discriminate.
+  destruct (p_err (run (pstep es) pfin (pred_fuel nodes es) s0)); try discriminate.
+  destruct (pfin (run (pstep es) pfin (pred_fuel nodes es) s0)); try discriminate.
   injection H as E. subst pm. exact P.
 Qed.
 
@@ -800,7 +800,7 @@ Proof.
   simpl in H. pose proof (compute_predecessors_keys _ _ _ Epm) as Hkeys.
   destruct (assocN root pm) as [rp|] eqn:Erp; [|discriminate].
   set (s0 := mkO [(root, rp)] [] [] 0) in *.
-  assert (I : oinv root pm es (run (ostep pick pm es) ofin fuel_depth s0)).
+  assert (I : oinv root pm es (run (ostep pick pm es) ofin (order_fuel (root :: rest) es) s0)).
   { apply run_inv.
     - intros s Hs Hf. apply ostep_inv; auto.
     - constructor; simpl; auto.
@@ -809,7 +809,7 @@ Proof.
       + intros x [[]|[Hx|[]]]. subst. apply rt_refl.
       + intros k [Hk|[]]. left. auto.
       + intros k [[]|[Hk|[]]]. subst. eapply assocN_In; eauto. }
-  set (s := run (ostep pick pm es) ofin fuel_depth s0) in *.
+  set (s := run (ostep pick pm es) ofin (order_fuel (root :: rest) es) s0) in *.
   destruct (o_err s) eqn:Eerr; [|discriminate].
   destruct (ofin s) eqn:Efin; [|discriminate].
   match type of H with (if ?c then _ else _) = _ => destruct c; [|discriminate] end.
